@@ -155,6 +155,14 @@ fn single_cases(t: &str, is_bool: bool, is_num: bool) -> Vec<Case> {
     c("struct literal naming a field twice (the other one missing)", "struct W { f: TT, g: bool }\npub fn main(x: TT) -> TT { let w = W { f: x, g: true }; w.f }", "struct W { f: TT, g: bool }\npub fn main(x: TT) -> TT { let w = W { f: x, f: x }; w.f }");
     c("struct literal naming a field twice", "struct W { f: TT, g: bool }\npub fn main(x: TT) -> TT { let w = W { f: x, g: true }; w.f }", "struct W { f: TT, g: bool }\npub fn main(x: TT) -> TT { let w = W { f: x, g: true, f: x }; w.f }");
     c("struct pattern naming a field twice", "struct W { f: TT, g: bool }\npub fn main(x: TT) -> TT { let w = W { f: x, g: true }; let W { f, g } = w; f }", "struct W { f: TT, g: bool }\npub fn main(x: TT) -> TT { let w = W { f: x, g: true }; let W { f, f } = w; f }");
+    c("match arms: an unsuffixed number first, then a bool", "pub fn main(x: bool) -> u8 { match x { true => 1, false => 2 } }", "pub fn main(x: bool) -> bool { match x { true => 1, false => true } }");
+    c("match arms: a bool first, then an unsuffixed number", "pub fn main(x: bool) -> bool { match x { true => true, false => false } }", "pub fn main(x: bool) -> bool { match x { true => true, false => 1 } }");
+    c("match arms in a let: an unsuffixed number and a bool variable", "pub fn main(x: bool) -> bool { let y = match x { true => false, false => x }; y }", "pub fn main(x: bool) -> bool { let y = match x { true => 0, false => x }; y }");
+    c("three match arms: the first an unsuffixed number, the last a bool", "pub fn main(x: u8) -> u8 { match x { 0 => 1, 1 => 2, _ => 3 } }", "pub fn main(x: u8) -> u8 { match x { 0 => 1, 1 => 2, _ => true } }");
+    c("if branches: an unsuffixed number and a bool", "pub fn main(x: bool) -> u8 { if x { 1 } else { 2 } }", "pub fn main(x: bool) -> bool { if x { 1 } else { true } }");
+    c("array literal: an unsuffixed number and a bool", "pub fn main(x: bool) -> [bool; 2] { [x, true] }", "pub fn main(x: bool) -> [bool; 2] { [1, true] }");
+    c("match arm in a let: an unsuffixed number that is not a value of the type of the other arm", "pub fn main(x: bool, z: u8) -> u8 { let y = match x { true => 30, false => z }; y }", "pub fn main(x: bool, z: u8) -> u8 { let y = match x { true => 300, false => z }; y }");
+    c("match arm in a let: a negative number for an unsigned arm type", "pub fn main(x: bool, z: i8) -> i8 { let y = match x { true => -3, false => z }; y }", "pub fn main(x: bool, z: u8) -> u8 { let y = match x { true => -3, false => z }; y }");
     c("unknown struct field access", "struct W { f: TT, g: bool }\npub fn main(x: TT) -> TT { let w = W { f: x, g: true }; w.f }", "struct W { f: TT, g: bool }\npub fn main(x: TT) -> TT { let w = W { f: x, g: true }; w.h }");
     c("unknown struct", "struct W { f: TT, g: bool }\npub fn main(x: TT) -> TT { let w = W { f: x, g: true }; w.f }", "struct W { f: TT, g: bool }\npub fn main(x: TT) -> TT { let w = X { f: x, g: true }; x }");
     c("struct pattern with an unknown field", "struct W { f: TT, g: bool }\npub fn main(x: TT) -> TT { let w = W { f: x, g: true }; let W { f, g } = w; f }", "struct W { f: TT, g: bool }\npub fn main(x: TT) -> TT { let w = W { f: x, g: true }; let W { f, h } = w; f }");
